@@ -17,6 +17,14 @@ pub(super) fn validate_query_against_schema(
     schema: &Schema,
     query: &Query,
 ) -> Result<(), FrontendError> {
+    if query.root_field.name.as_ref() == TYPENAME_META_FIELD {
+        // The root of a query must be an edge of the schema's query type,
+        // and the `__typename` meta field is a property.
+        return Err(FrontendError::ValidationError(ValidationError::NonExistentPath(vec![
+            TYPENAME_META_FIELD.to_string(),
+        ])));
+    }
+
     let mut path = vec![];
     validate_field(
         schema,
